@@ -492,7 +492,7 @@ impl Prop for P {
             },
             Tier::Thorough => Plan {
                 workers: 16,
-                cases_per_worker: 80000,
+                cases_per_worker: 250000,
                 timeout_s: 14400,
                 max_shrink_iters: 1500,
             },
